@@ -222,6 +222,28 @@ def run_case(spec):
     tolu = cst * np.array([exact.scale_abs(L, p[0].astype(float), p[1].astype(float)) for p in pu]) + 1e-300
     cmp('pair_distance(uint8 array)', est.pair_distance(pu), tolu, refu)
     cmp('get_metric()(uint8 arrays)', [metric(p[0], p[1]) for p in pu], tolu, refu)
+    # the same uint8 points held by a preprocessor (array, and callable returning uint8 rows), addressed by index pairs:
+    # separately fitted objects, each compared with the exact reference of its own components_
+    iu = np.array([[i, j] for i in range(4) for j in range(4)])
+    try:
+        for vname, pre in (('uint8 ndarray', Qu.copy()), ('uint8-returning callable', (lambda ids: Qu[np.asarray(ids)])),
+                           ('uint16 ndarray', Qu.astype(np.uint16))):
+            e4 = zoo.make(name, ds, **dict(over, preprocessor=pre))
+            e4.fit(*zoo.train_args(name, ds))
+            L4 = np.asarray(e4.components_)
+            if L4.shape != L.shape or np.iscomplexobj(L4) or not np.isfinite(L4).all():
+                continue
+            L4f = exact.fmat(L4)
+            ref4 = np.array([exact.sqrt_float(exact.d2_exact(L4f, exact.fvec(p[0]), exact.fvec(p[1]))) for p in pu])
+            tol4 = cst * np.array([exact.scale_abs(L4, p[0].astype(float), p[1].astype(float)) for p in pu]) + 1e-300
+            cmp('pair_distance(indices + %s preprocessor)' % vname, e4.pair_distance(iu), tol4, ref4)
+            if k:
+                T4 = e4.transform(np.arange(4))
+                Tr4 = np.array([[float(x) for x in row] for row in exact.matmul_exact([exact.fvec(q) for q in Qu], exact.transpose(L4f))])
+                cmp('transform(indices + %s preprocessor)' % vname, T4,
+                    8.0 * (d + 2) * exact.EPS * np.abs(Qu.astype(float)).dot(np.abs(L4).T) + 1e-300, Tr4.reshape(4, k), 'transform')
+    except Exception as e:
+        viol.append(V(site, 'preprocessor_view', 'query through an integer-typed preprocessor raised %s: %s' % (type(e).__name__, e), tr))
     if k:
         Ti = est.transform(Qi)
         Tri = np.array([[float(x) for x in row] for row in exact.matmul_exact([exact.fvec(q) for q in Qi], exact.transpose(Lf))])
